@@ -24,8 +24,10 @@ AuxL2 == 10                                               \* auxiliary ppc bus o
 \* sgen: "absent" | "oos" | "small" | "equal" | "large"      (p relative to ld1: smaller / equal / larger)
 \* swl : "absent" | "closed" | "open"  (only when l2 # "absent")    swb : "absent" | "closed" | "open"
 \* b3  : BOOLEAN (bus 3 in service)     route : "ppc" | "mpc"
+\* (parameters of things that are not there are pinned, so that no configuration is enumerated twice)
 WellFormed(c) ==
-  /\ (c.tr = "absent" => c.tap = "neutral" /\ c.shift = 0 /\ c.pfe = "zero")
+  /\ (c.tr # "in" => c.tap = "neutral" /\ c.shift = 0 /\ c.pfe = "zero")
+  /\ (c.tr # "in" => c.b3)
   /\ (c.l2 = "absent" => c.swl = "absent")
 
 \* level -> kW / kvar table (the harness uses the same numbers, c21.py LEVELS)
